@@ -36,7 +36,9 @@ ASSUMPTIONS = [
 ]
 BUDGET = {"quick": 400, "thorough": 3300}
 ALGOS = ("lca", "thl", "exh", "base_spfs", "ext_spfs", "base_uspfs", "superdtl")
-COST_OPTS = [[], ["--cost-dup", "2", "--cost-sloss", "0"], ["--cost-hgt", "float('inf')"]]
+COST_OPTS = [[], ["--cost-dup", "2", "--cost-sloss", "0"], ["--cost-hgt", "float('inf')"],
+             # costs whose optimum needs more than six significant digits / is not an integer
+             ["--cost-dup", "1000000", "--cost-floss", "1/3", "--cost-sloss", "7"]]
 
 
 def worker_init():
@@ -316,12 +318,15 @@ def plan(tier, seed):
     out = []
     # quick: <=3 x <=2 leaves plus the 4-leaf objects on a single species (three ancestors are needed for the naming
     # patterns in which two consecutive auto-label-like names are taken)
-    pairs = (spaces.shape_pairs(3, 2) + spaces.shape_pairs(4, 1, min_obj=4) if tier == "quick"
-             else spaces.shape_pairs(3, 3) + spaces.shape_pairs(4, 2, min_obj=4))
+    # and the 5-leaf objects on one species / one object on 5-leaf species trees (the first size at which pre-order and
+    # breadth-first numbering of the ancestors differ)
+    pairs = (spaces.shape_pairs(3, 2) + spaces.shape_pairs(5, 1, min_obj=4) + spaces.shape_pairs(1, 5, min_sp=5) if tier == "quick"
+             else spaces.shape_pairs(3, 3) + spaces.shape_pairs(4, 2, min_obj=4) + spaces.shape_pairs(5, 1, min_obj=5)
+             + spaces.shape_pairs(2, 5, min_sp=4))
     for osh, ssh in pairs:
         n = spaces.count_assignments(osh, ssh)
         for i in range(n):
-            out.append({"slice": f"cli:{'P3x2+P4x1' if tier == 'quick' else 'P3x3+P4x2'}", "osh": osh, "ssh": ssh, "asg": i, "full": tier != "quick"})
+            out.append({"slice": f"cli:{'P3x2+P4..5x1+P1x5' if tier == 'quick' else 'P3x3+P4x2+P5x1+P2x4..5'}", "osh": osh, "ssh": ssh, "asg": i, "full": tier != "quick"})
     # multifurcating input files (extended solvers): at least one polytomy in either tree
     maxo, maxs = (3, 3) if tier == "quick" else (4, 3)
     for no in range(2, maxo + 1):
@@ -345,9 +350,15 @@ def cases_for(O, S, leafmap, full):
     osyn = [dict(zip(O.leaves, t)) for t in spaces.synteny_tuples(n, o2) if ordered.root_orders(dict(zip(O.leaves, t)))]
     usyn = [dict(zip(O.leaves, t)) for t in spaces.synteny_tuples(n, u2)]
     k = 0
-    for oid, opat in object_patterns(O):
-        for sid, spat in species_patterns(S):
-            for algo in ALGOS:
+    opats, spats, algos = object_patterns(O), species_patterns(S), ALGOS
+    if len(O.leaves) >= 5 or len(S.leaves) >= 5:
+        # the large trees are there for the numbering order only: fewer patterns, three algorithms
+        opats = [p_ for p_ in opats if p_[0] in ("none_named", "O0_O1_taken", "O0_O2_taken") or p_[0].startswith("only_")]
+        spats = [p_ for p_ in spats if p_[0] in ("none_named", "all_named", "S_leaves_taken")]
+        algos = ("lca", "thl", "superdtl")
+    for oid, opat in opats:
+        for sid, spat in spats:
+            for algo in algos:
                 if algo in ("lca", "thl", "exh"):
                     syns = [None]
                 elif algo in ("base_spfs", "ext_spfs"):
@@ -355,7 +366,7 @@ def cases_for(O, S, leafmap, full):
                 else:
                     syns = usyn if full else usyn[k % 3::3][:4]
                 for leafsyn in syns:
-                    opts = range(3) if full else [k % 3]
+                    opts = range(len(COST_OPTS)) if full else [k % len(COST_OPTS)]
                     for ci in opts:
                         k += 1
                         yield oid, opat, sid, spat, algo, leafsyn, bool(k % 2), ci
@@ -375,7 +386,7 @@ def poly_cases(O, S, full, asg):
         for leafsyn in (syns if full else syns[asg % 2::2]):
             k += 1
             (oid, opat), (sid, spat) = pats[k % len(pats)]
-            yield leafmap, oid, opat, sid, spat, algo, leafsyn, k % 3
+            yield leafmap, oid, opat, sid, spat, algo, leafsyn, k % len(COST_OPTS)
 
 
 def run_poly_shard(shard):
